@@ -996,9 +996,12 @@ def extra_schedules():
     # one service name / one BLE address with a history: the later record is judged like a first one
     hist_m = [["m0n1", "m0v1"], ["m0n1", "m0p1"], ["m0l2", "m0v2"], ["m0l2", "m0p2"], ["m0v1", "m0p1"], ["m0v1", "m0p1", "m0v1"],
               ["m0i0", "m0v1"], ["m0i2", "m0v1"], ["m0v1", "m1v2", "m0p1"], ["m0v1", "m1v2", "m0v1"], ["m0n1", "m1n2", "m1v2", "m0v1"],
-              ["m0n1", "m0n1", "m0v1"], ["m0v1", "m0n1", "m0p1"], ["m0v1", "m0v3", "m0p3"]]
+              ["m0n1", "m0n1", "m0v1"], ["m0v1", "m0n1", "m0p1"], ["m0v1", "m0v3", "m0p3"],
+              # configuration / state numbers going DOWN between records of one id (wrap, reset): the latest one counts
+              ["m0v0", "m0v1"], ["m0v1", "m0v2"], ["m0v3", "m0v4"], ["m0v5", "m0v6", "m0v7"]]
     hist_b = [["b0i0", "b0v1"], ["b0i1", "b0v1"], ["b0i3", "b0v1"], ["b0v1", "b0v1"], ["b0v1", "b0v2"], ["b0v1", "b1v2", "b0v1"],
-              ["b0v1", "b0i0", "b0v1"], ["b0v1", "b0i0", "b0v3"]]
+              ["b0v1", "b0i0", "b0v1"], ["b0v1", "b0i0", "b0v3"],
+              ["b0v0", "b0v1", "b0v2"], ["b0v3", "b0v4"], ["b0v4", "b0v5"], ["b0v6", "b0v7"], ["b0v3", "b0i0", "b0v2"]]
     for kind, hists in (("mdns", hist_m), ("agg", hist_m + hist_b), ("ble", hist_b)):
         for h in hists:
             wid = X.upper() if kind == "mdns" else X
@@ -1411,7 +1414,7 @@ def run_world_stream(ctx, cov, viols, timing):
     t0 = time.time()
     jobs = []
     for world, spec in WORLDS.items():
-        depth = (4 if world in ("ip+coap", "ble+ble") else 3) + (1 if tier != "quick" else 0)
+        depth = (4 if world == "ip+coap" else 3) + (1 if tier != "quick" else 0)
         for pre in expand_world(world, [], 1):
             jobs.append((world, pre[:-1], depth, exe))
     directed = world_directed()
